@@ -483,7 +483,27 @@ func runScenario(t *tape.Tape, cfg sim.Config, listen bool) (res sim.Result) {
 	} else {
 		rc = wazero.NewRuntimeConfigCompiler()
 	}
-	rc = rc.WithCloseOnContextDone(true).WithCoreFeatures(api.CoreFeaturesV2 | experimental.CoreFeaturesTailCall)
+	rc = rc.WithCoreFeatures(api.CoreFeaturesV2 | experimental.CoreFeaturesTailCall)
+	if t.Chance(1, 4) {
+		// a compilation cache shared with ANOTHER runtime that does not have close-on-context-done and that
+		// compiled first (the guest itself and a small unrelated module): what this runtime compiles must
+		// carry its own setting
+		cache := wazero.NewCompilationCache()
+		defer cache.Close(bg)
+		rc = rc.WithCompilationCache(cache)
+		decoy := wazero.NewRuntimeWithConfig(bg, rc)
+		if _, err := decoy.CompileModule(bg, bin); err != nil {
+			panic(err)
+		}
+		other := &wasmb.Module{}
+		other.AddFunc(nil, nil, nil, (&wasmb.Code{}).Loop(wasmb.BlockVoid).End().B, "l")
+		if _, err := decoy.CompileModule(bg, other.Encode()); err != nil {
+			panic(err)
+		}
+		defer decoy.Close(bg)
+		res.Stat("probe.cache_shared_with_a_runtime_without_close_on_context_done", 1)
+	}
+	rc = rc.WithCloseOnContextDone(true)
 	rt := wazero.NewRuntimeWithConfig(bg, rc)
 	defer rt.Close(bg)
 	if guestWASI {
